@@ -27,7 +27,11 @@
 (*            in plotting order.                                           *)
 (*  span    : get_E_span(path) called directly; the same as one call.      *)
 (*                                                                         *)
-(* Clauses: NodesExact, EdgesExact, TSFlag, NodeAttrs (build);             *)
+(* Clauses: NodesExact, EdgesExact (or GraphIsNetwork_KnownTSKept when the *)
+(* graph is exactly the include_TS = True graph although False was asked   *)
+(* for), TSFlag, NodeAttrs (build); CutoffStates is reported as            *)
+(* CutoffStates_KnownEdgeCount when the enumerated set is exactly the      *)
+(* simple paths with at most cutoff EDGES;                                 *)
 (* PathsAreSimple, CutoffStates, PathsOnce, PathsComplete, SpanDefinition, *)
 (* MinIsLeast, Finite (minspan / diagram); Selection (diagram); Raises.    *)
 (* A query without any required pathway, and a diagram from which every    *)
@@ -47,10 +51,16 @@ BuildClauses(e) ==
    IF e.raised # "" THEN {"Raises"} ELSE
    LET obsN == {e.nodes[i][1] : i \in 1..Len(e.nodes)}
        obsE == {{e.edges[i][1], e.edges[i][2]} : i \in 1..Len(e.edges)}
-   IN (IF obsN = NodesOf(e.rx, e.inc) /\ Len(e.nodes) = Cardinality(obsN) THEN {} ELSE {"NodesExact"})
-      \cup (IF obsE = EdgesOf(e.rx, e.inc) /\ Len(e.edges) = Cardinality(obsE)
+       once == /\ Len(e.nodes) = Cardinality(obsN) /\ Len(e.edges) = Cardinality(obsE)
                /\ \A i \in 1..Len(e.edges) : e.edges[i][1] # e.edges[i][2]
-            THEN {} ELSE {"EdgesExact"})
+       okN == obsN = NodesOf(e.rx, e.inc) /\ Len(e.nodes) = Cardinality(obsN)
+       okE == obsE = EdgesOf(e.rx, e.inc) /\ once
+       \* KNOWN DEVIATION (finding X02-F4): include_TS = False was asked for and the graph is
+       \* exactly the include_TS = True graph of the same reactions
+       tsKept == /\ ~e.inc /\ (~okN \/ ~okE) /\ once
+                 /\ obsN = NodesOf(e.rx, TRUE) /\ obsE = EdgesOf(e.rx, TRUE)
+   IN (IF tsKept THEN {"GraphIsNetwork_KnownTSKept"}
+       ELSE (IF okN THEN {} ELSE {"NodesExact"}) \cup (IF okE THEN {} ELSE {"EdgesExact"}))
       \* the flag says whether the state is the transition state of a reaction
       \cup (IF \A i \in 1..Len(e.nodes) :
                   e.nodes[i][1] # 0 => (e.nodes[i][2] <=> e.nodes[i][1] \in TSOf(e.rx, TRUE))
@@ -79,7 +89,10 @@ PathClauses(e, R, T) ==
    LET n == Len(e.calls)
        paths == [i \in 1..n |-> PathOf(e.calls[i])]
    IN (IF \A i \in 1..n : IsPathway(GN, GE, e.s, T, paths[i]) THEN {} ELSE {"PathsAreSimple"})
-      \cup (IF e.c = 0 \/ \A i \in 1..n : Len(paths[i]) <= e.c THEN {} ELSE {"CutoffStates"})
+      \* KNOWN DEVIATION (finding X02-F5): exactly the simple paths with at most cutoff EDGES
+      \cup (IF e.c = 0 \/ \A i \in 1..n : Len(paths[i]) <= e.c THEN {}
+            ELSE IF NoDup(paths) /\ RangeOf(paths) = Pathways(GN, GE, e.s, T, e.c + 1)
+                 THEN {"CutoffStates_KnownEdgeCount"} ELSE {"CutoffStates"})
       \cup (IF NoDup(paths) THEN {} ELSE {"PathsOnce"})
       \cup (IF R \subseteq RangeOf(paths) THEN {} ELSE {"PathsComplete"})
       \cup (IF \A i \in 1..n :
